@@ -216,6 +216,27 @@ def one(ctx, rng, tmpdir, spec=None, stochastic=None):
     for (ri, text, kvs), ans in zip(metas, driver_batch(jobs)):
         if "error" in ans or ans["text"] != text or ans["decoded"] != kvs:
             ctx.broke("corr_C12_annotation_codec", {"reaction": ri, "document_text": text, "model": ans})
+    # the delay annotations: the text as written, decoded by the Lean codec (pairs, then comma-separated lists), against what
+    # the importer's own expressions give and against the delayed reactants / products of the reaction that was written
+    jobs, metas = [], []
+    for ri, r in enumerate(sm.getListOfReactions()):
+        m = re.search(r"<DelayType>(.*?)</DelayType>", r.getAnnotationString(), re.S)
+        if not m:
+            continue
+        text = m.group(1)
+        jobs.append({"op": "annot", "kvs": [], "text": text})
+        metas.append((ri, text))
+    for (ri, text), ans in zip(metas, driver_batch(jobs)):
+        kvs = [[tok.split("=")[0], tok.split("=")[1]] for tok in text.split(" ") if "=" in tok]
+        if "error" in ans or ans["decoded"] != kvs or ans["lists"] != [kv[1].split(",") for kv in kvs]:
+            ctx.broke("corr_C12_delay_annotation_codec", {"reaction": ri, "document_text": text, "model": ans})
+            continue
+        rx = spec["reactions"][ri]
+        if len(rx) > 4:
+            lists = {kv[0]: [w for w in l if w != ""] for kv, l in zip(ans["decoded"], ans["lists"])}
+            if lists.get("reactants") != list(rx[5]) or lists.get("products") != list(rx[6]):
+                ctx.broke("corr_C12_delay_annotation_lists", {"reaction": ri, "document_text": text, "written_reaction": [list(rx[5]), list(rx[6])], "model": lists})
+            ctx.count("delay_annotations_decoded")
     ctx.nontriv((stochastic, tuple(sorted(set(r[2] for r in spec["reactions"]))), tuple(sorted(set((r[4] if len(r) > 4 else "none") for r in spec["reactions"]))),
                  tuple(str(r[2]) for r in spec["rules"])))
     for r in spec["reactions"]:
